@@ -35,6 +35,7 @@ UNIT_DEPS = {
     'prim_mul': ['mul', 'conv'],
     'round': ['core', 'pow10', 'types', 'context'],
     'config': ['types'],
+    'fmt': ['insig', 'round', 'config', 'types'],
     'insig': ['round', 'config', 'types'],
     'clients': ['add', 'sub', 'mul', 'derived', 'prim_add', 'prim_sub', 'prim_mul', 'canon', 'cmp', 'scale', 'core'],
     'roots': ['core', 'context', 'config', 'cmp'],
